@@ -1067,7 +1067,7 @@ async fn step<'a, 'c: 'a>(n: &'a Node, env: &'a Env, st: &'a mut Store<'c>, k: &
 struct AssertSend<T>(T);
 unsafe impl<T> Send for AssertSend<T> {}
 
-fn join<'a, 'c: 'a>(tasks: &'a [Task], schedule: &'a [(u32, bool)], env: &'a Env, st: &'a mut Store<'c>, k: &'c K, fl: Fl) -> Res {
+fn join<'a, 'c: 'a>(tasks: &'a [Task], schedule: &'a [(u32, u8)], env: &'a Env, st: &'a mut Store<'c>, k: &'c K, fl: Fl) -> Res {
     k.label("join");
     // polling elsewhere is only meaningful for the lexical model where the executor's thread shows
     // nothing (a fresh thread shows nothing either)
@@ -1134,6 +1134,10 @@ fn join<'a, 'c: 'a>(tasks: &'a [Task], schedule: &'a [(u32, bool)], env: &'a Env
             if suspended_frames[i] > 0 {
                 // a suspended frame-wrapped future resumed on a different thread
                 k.label("hop:suspended-future-resumed-on-other-thread");
+                if elsewhere == 2 {
+                    k.label("fresh-thread-first-op-is-enter");
+                    k.label("fresh-thread-first-op-is-enter:carried-frame");
+                }
             }
             let fut = AssertSend(futs[i].as_mut().unwrap());
             on_fresh_thread(k, env, move || {
@@ -1203,7 +1207,9 @@ async fn enter_stored<'a, 'c: 'a>(
     };
     let mut fl_in = fl;
     if value.is_some() {
-        if touch(1u8 << inst) & (1u8 << inst) == 0 {
+        // (in_fn-on-thread enters on the new thread, not here: labelled there)
+        let enters_here = !matches!(how, How::InFnThread | How::InFnThreadQuiet);
+        if enters_here && touch(1u8 << inst) & (1u8 << inst) == 0 {
             // nothing was observed or created for this instance on this thread before
             k.label("fresh-thread-first-op-is-enter");
             if born_thread != fl.thread {
@@ -1362,6 +1368,10 @@ where
         }
         How::InFnThread | How::InFnThreadQuiet => {
             let quiet = how == How::InFnThreadQuiet;
+            if quiet && info.has_value {
+                k.label("fresh-thread-first-op-is-enter");
+                k.label("fresh-thread-first-op-is-enter:carried-frame");
+            }
             let tid = k.next_thread.fetch_add(1, Ordering::Relaxed);
             k.label("thread");
             if info.has_value {
@@ -1498,7 +1508,7 @@ fn scrub_shared() {
 pub fn run_case(case: &Case) -> Result<Stats, Fail> {
     scrub_shared();
     // this case's A and B are brand new; the per-thread shared() storage may have been used before
-    TOUCHED.with(|t| t.set(t.get() & 0b100));
+    TOUCHED.with(|t| t.set(0b100));
     let k = K::new();
     let env = Env::empty();
     let r = {
